@@ -8,7 +8,7 @@ Void == <<"void">>
 NoneV == <<"none">>
 
 (* ---------------- the board ---------------- *)
-\* [ram, nick, m1, m2, res, volt]; replies are [vals |-> <<ints>>, s |-> string]
+\* [ram, nick, m1, m2, res, volt, p1, p2]; replies are [vals |-> <<ints>>, s |-> string]
 ResCode(r) == CASE r = 1 -> 16 [] r = 2 -> 8 [] r = 3 -> 4 [] r = 4 -> 2 [] r = 5 -> 1 [] OTHER -> 0
 CodeRes(c) == CASE c = 16 -> 1 [] c = 8 -> 2 [] c = 4 -> 3 [] c = 2 -> 4 [] c = 1 -> 5 [] OTHER -> 0
 NoReply == [vals |-> <<>>, s |-> ""]
@@ -18,12 +18,15 @@ BoardAfter(b, st) ==
     [] st.n = "ST" -> [b EXCEPT !.nick = st.s]
     [] st.n = "EM" -> LET e1 == st.v[1] e2 == st.v[2] IN
                       [b EXCEPT !.m1 = (e1 # 0), !.m2 = (e2 # 0), !.res = IF e1 \in 1..5 THEN e1 ELSE @]
+    \* global step counters (growth beyond the list): SM,<t>,<axis1>,<axis2> adds the deltas, CS clears them, QS reports them
+    [] st.n = "SM" -> [b EXCEPT !.p1 = @ + st.v[2], !.p2 = @ + st.v[3]]
+    [] st.n = "CS" -> [b EXCEPT !.p1 = 0, !.p2 = 0]
     [] OTHER -> b
 BoardReply(b, st) ==
   CASE st.n = "QL" -> [vals |-> <<b.ram[st.v[1]]>>, s |-> ""]
     [] st.n = "QT" -> [vals |-> <<>>, s |-> b.nick]
     [] st.n = "QE" -> [vals |-> <<IF b.m1 THEN ResCode(b.res) ELSE 0, IF b.m2 THEN ResCode(b.res) ELSE 0>>, s |-> ""]
-    [] st.n = "QS" -> [vals |-> <<120, -45>>, s |-> ""]
+    [] st.n = "QS" -> [vals |-> <<b.p1, b.p2>>, s |-> ""]
     [] st.n = "QC" -> [vals |-> <<394, b.volt>>, s |-> ""]
     [] st.n = "PI" -> [vals |-> <<1>>, s |-> ""]
     [] st.n = "QG" -> [vals |-> <<62>>, s |-> ""]
@@ -54,6 +57,9 @@ Program(c) ==
          \o (IF c1 = 0 /\ c2 # 0 THEN <<Stp("qry", "QE", "QE", <<>>, ""), Stp("qeb", "EM," \o S(c2) \o "," \o S(c2), "EM", <<c2, c2>>, "")>> ELSE <<>>)
          \o <<Stp("cmd", "EM," \o S(c1) \o "," \o S(c2), "EM", <<c1, c2>>, "")>>
     [] m = "query_steps" -> <<Stp("qry", "QS", "QS", <<>>, "")>>
+    [] m = "xy_move" -> <<Stp("cmd", Lines(m, a)[1], "SM", <<a[3], a[2], a[1]>>, "")>>          \* duration, axis 1 (Y), axis 2 (X)
+    [] m = "timed_pause" -> LET ch == PauseChunks(a[1]) IN [k \in 1..Len(ch) |-> Stp("cmd", PauseLines(a[1])[k], "SM", <<ch[k], 0, 0>>, "")]
+    [] m = "clear_steps" -> <<Stp("cmd", "CS", "CS", <<>>, "")>>
     [] m \in {"query_voltage", "query_current"} -> <<Stp("qry", "QC", "QC", <<>>, "")>>
     [] m = "dio_b_read" -> <<Stp("qry", Lines(m, a)[1], "PI", a, "")>>
     [] m \in {"record_error", "connect", "disconnect", "none"} -> <<>>
